@@ -38,11 +38,12 @@ func (t *Time) String() string {
 // ToTimeTZ converts t to *TimeTZ in the time zone in ctx. It works relative
 // the current date.
 func (t *Time) ToTimeTZ(ctx context.Context) *TimeTZ {
-	now := time.Now()
+	tz := TZFromContext(ctx)
+	now := time.Now().In(tz)
 	return NewTimeTZ(time.Date(
 		now.Year(), now.Month(), now.Day(),
 		t.Hour(), t.Minute(), t.Second(), t.Nanosecond(),
-		TZFromContext(ctx),
+		tz,
 	))
 }
 
